@@ -347,7 +347,7 @@ func KeyProgram(key string) (string, bool) {
 			return BareFileOf(b), true
 		}
 	default:
-		for _, c := range append(AllCells(), ImportCells()...) {
+		for _, c := range append(append(AllCells(), ImportCells()...), SaveCells()...) {
 			if c.Name == key {
 				if c.Body != "" {
 					return BareFileOf(c.Body), true
@@ -374,8 +374,8 @@ func (r *Runner) Run() {
 	// (0) the listed known findings, as fixed cases
 	still, gone := 0, []string{}
 	for _, k := range c.KnownKeys() {
-		if strings.HasPrefix(k, "fmtfile:") {
-			continue // belongs to the named-file workload
+		if strings.HasPrefix(k, "fmtfile:") || strings.HasPrefix(k, "save:") {
+			continue // belongs to the named-file / format-on-save workload
 		}
 		src, ok := KeyProgram(k)
 		if !ok {
